@@ -188,6 +188,10 @@ class BaseComponent(Manager):
             self.parent = self
 
         self._updateRoot(self)
+        # This component is a root (again): handlers cached while it was a
+        # root before are stale, changes made meanwhile were flagged on the
+        # former root only.
+        self._cache_needs_refresh = True
         return self
 
     def _updateRoot(self, root):
